@@ -81,6 +81,12 @@ def configs(tier):
     for sender in ('stop-set', 'stop-same', 'outasync'):
         for cause in ('shutdown', 'abort'):
             out.append(dict(kind='cleanup', sender=sender, cause=cause, k=1, m=1, pat=-1, style='list', shared=1))
+    # a destination's handler assigns the sender's output again while the fan-out of the first
+    # assignment is still being delivered: every event still describes ONE real change
+    for trig in ('on_output', 'on_every_output'):
+        for pos in (0, 1):
+            out.append(dict(kind='reentrant', trig=trig, pos=pos, sender='sb', k=1, m=1, pat=-1,
+                            style='list', shared=1))
     # one Event object configured on two sender blocks: 'source' and 'previous' are the sender's
     for pair in (('sb', 'sb'), ('input', 'counter'), ('input', 'not')):
         for k, m in ((1, 0), (0, 1), (1, 1), (2, 1)) if tier == 'quick' else itertools.product(range(4), repeat=2):
@@ -414,6 +420,48 @@ def run_shared(cfg, hist):
     return (None if info.get('dead') else info['canon']), info
 
 
+def run_reentrant(cfg, acc):
+    viol = []
+    log = []
+    with Sim() as sim:
+        rec1 = Probe('rec1', log=log)
+        rec2 = Probe('rec2', log=log)
+        holder = {}
+
+        class Limiter(edzed.SBlock):
+            def init_regular(self):
+                self.set_output(0)
+
+            def _event_trip(self, *, value, **_data):
+                if value == 5:
+                    holder['snd'].set_output(0)     # nested assignment (not an event: no recursion)
+        lim = Limiter('lim')
+        evs = [edzed.Event(rec1, 'r1'), edzed.Event(rec2, 'r2')]
+        # (the nested change 5 -> 0 itself is filtered out: no event loop)
+        evs.insert(cfg['pos'], edzed.Event(lim, 'trip', efilter=lambda data: data['value'] == 5))
+        snd = holder['snd'] = Setter('snd', first=0, **{cfg['trig']: evs})
+
+        async def driver():
+            task = asyncio.create_task(sim.circuit.run_forever())
+            await sim.circuit.wait_init()
+            for v in (5, 3, 5):
+                edzed.ExtEvent(snd, 'set').send(v)
+                await sim.loop.idle()
+            await stop(sim.circuit)
+            del task
+        sim.run(driver())
+    acc.execs += 1
+    # real changes: UNDEF->0, 0->5, 5->0 (nested), 0->3, 3->5, 5->0 (nested)
+    changes = [(UNDEF, 0), (0, 5), (5, 0), (0, 3), (3, 5), (5, 0)]
+    for name, et in (('rec1', 'r1'), ('rec2', 'r2')):
+        got = [(d['previous'], d['value']) for (_t, n, e, d) in log if n == name and e == et]
+        acc.outcome(('reentrant', cfg['trig'], cfg['pos'], name, repr(got)))
+        if sorted(map(repr, got)) != sorted(map(repr, changes)):
+            viol.append(('data', f"{cfg['trig']}, the re-assigning destination at position {cfg['pos']}: "
+                         f"{name} received (previous, value) = {got}; the real changes were {changes}"))
+    return viol
+
+
 def run_cleanup(cfg, acc):
     viol = []
     log = []
@@ -471,6 +519,10 @@ def run_cleanup(cfg, acc):
 
 def run_config(cfg):
     acc = Acc()
+    if cfg.get('kind') == 'reentrant':
+        for sig, msg in run_reentrant(cfg, acc):
+            acc.violation(f"C02:{sig}:reentrant", msg, cfg=cfg)
+        return acc
     if cfg.get('kind') == 'cleanup':
         for sig, msg in run_cleanup(cfg, acc):
             acc.violation(f"C02:{sig}:cleanup", msg, cfg=cfg)
